@@ -15,8 +15,9 @@
    Operands:  [f |-> "ref", i]            v<i>           (or /r<i>/ after =~ !~)
               [f |-> "neg", i]            -v<i>
               [f |-> "pos", i]            +v<i>
-              [f |-> "par", i, sub]       ( p<i>_0 sub[1] p<i>_1 ... )
-              [f |-> "npar", i, sub]      -( ... )                                  *)
+              [f |-> "par", i, sub, d]    ( p<i>_0 sub[1] p<i>_1 ... )   written with d pairs of
+                                          parentheses directly around each other: d ParenExpr nodes
+              [f |-> "npar", i, sub, d]   -( ... )                                  *)
 EXTENDS Naturals, Integers, Sequences, TLC, Tok, Ast
 
 \* the 19 spellings of the 18 binary operators
@@ -64,6 +65,9 @@ SubAtoms(i, sub) == [j \in 1..(Len(sub) + 1) |->
                        IF j > 1 /\ IsRegexOp(sub[j - 1]) THEN ReL(SubName(i, j - 1)) ELSE Ref(SubName(i, j - 1))]
 
 Signed(m, e) == Bin("*", IntL(m), e)
+\* every pair of parentheses is one ParenExpr node ("parenthesised groups are kept")
+RECURSIVE Wrap(_, _)
+Wrap(e, d) == IF d = 0 THEN e ELSE Paren(Wrap(e, d - 1))
 
 \* atom for an operand; `design` selects which grouping is used inside parentheses
 Atom(x, afterRegex, design) ==
@@ -73,8 +77,8 @@ Atom(x, afterRegex, design) ==
        [] x.f = "ref" -> Ref(VName(x.i))
        [] x.f = "neg" -> Signed("-1", Ref(VName(x.i)))
        [] x.f = "pos" -> Signed("1", Ref(VName(x.i)))
-       [] x.f = "par" -> Paren(inner)
-       [] x.f = "npar" -> Signed("-1", Paren(inner))
+       [] x.f = "par" -> Wrap(inner, x.d)
+       [] x.f = "npar" -> Signed("-1", Wrap(inner, x.d))
 
 RECURSIVE DesignFrom(_, _, _)
 DesignFrom(items, j, acc) ==
@@ -96,7 +100,7 @@ SubToks(i, sub, j) ==
   ELSE <<OpTok(sub[j]), IF IsRegexOp(sub[j]) THEN Re(SubName(i, j)) ELSE Id(SubName(i, j))>> \o SubToks(i, sub, j + 1)
 
 OperandToks(x, afterRegex) ==
-  LET par == <<P("("), IdT(SubName(x.i, 0))>> \o SubToks(x.i, x.sub, 1) \o <<PT(")")>>
+  LET par == <<P("(")>> \o [j \in 1..(x.d - 1) |-> PT("(")] \o <<IdT(SubName(x.i, 0))>> \o SubToks(x.i, x.sub, 1) \o [j \in 1..x.d |-> PT(")")]
   IN CASE afterRegex -> <<Re("r" \o ToString(x.i))>>
        [] x.f = "ref" -> <<Id(VName(x.i))>>
        [] x.f = "neg" -> <<P("-"), IdT(VName(x.i))>>
